@@ -156,12 +156,13 @@ func (tx *Transaction) Commit(ctx context.Context, scope *ReferenceScope, expr p
 				return NewSystemError(err.Error())
 			}
 
-			if _, err := EncodeView(ctx, fp, view, fileInfo.ExportOptions(tx), tx.Palette); err != nil {
+			exportOptions := fileInfo.ExportOptions(tx)
+			if _, err := EncodeView(ctx, fp, view, exportOptions, tx.Palette); err != nil {
 				return NewCommitError(expr, err.Error())
 			}
 
 			if !tx.Flags.ExportOptions.StripEndingLineBreak && !(fileInfo.Format == option.FIXED && fileInfo.SingleLine) {
-				if _, err := fp.Write([]byte(tx.Flags.ExportOptions.LineBreak.Value())); err != nil {
+				if _, err := fp.Write(encodedLineBreak(exportOptions)); err != nil {
 					return NewCommitError(expr, err.Error())
 				}
 			}
@@ -184,12 +185,13 @@ func (tx *Transaction) Commit(ctx context.Context, scope *ReferenceScope, expr p
 				return NewSystemError(err.Error())
 			}
 
-			if _, err := EncodeView(ctx, fp, view, fileInfo.ExportOptions(tx), tx.Palette); err != nil {
+			exportOptions := fileInfo.ExportOptions(tx)
+			if _, err := EncodeView(ctx, fp, view, exportOptions, tx.Palette); err != nil {
 				return NewCommitError(expr, err.Error())
 			}
 
 			if !tx.Flags.ExportOptions.StripEndingLineBreak && !(fileInfo.Format == option.FIXED && fileInfo.SingleLine) {
-				if _, err := fp.Write([]byte(tx.Flags.ExportOptions.LineBreak.Value())); err != nil {
+				if _, err := fp.Write(encodedLineBreak(exportOptions)); err != nil {
 					return NewCommitError(expr, err.Error())
 				}
 			}
